@@ -69,6 +69,8 @@ enum Scenario {
     GetDuringPush,
     /// `a.push(y); b.push(x)` on one thread, a concatenation of a and b on another
     ConcatDuringOrderedPushes,
+    /// pushes on one thread, `l.concat(&l)` / `l + l` on the others: both halves are one state
+    SelfConcatDuringPush,
 }
 
 #[derive(Clone, Debug)]
@@ -95,9 +97,13 @@ struct Cfg {
 
 fn decode(ctl: &[u8]) -> Cfg {
     let mut c = Choices::new(ctl);
-    let scenario = if c.chance(128) { Scenario::ConcatDuringOrderedPushes } else { Scenario::GetDuringPush };
+    let scenario = match c.below(5) {
+        0 | 1 => Scenario::GetDuringPush,
+        2 | 3 => Scenario::ConcatDuringOrderedPushes,
+        _ => Scenario::SelfConcatDuringPush,
+    };
     let n = match scenario {
-        Scenario::GetDuringPush => [4usize, 8, 16, 32][c.below(4)],
+        Scenario::GetDuringPush | Scenario::SelfConcatDuringPush => [4usize, 8, 16, 32][c.below(4)],
         Scenario::ConcatDuringOrderedPushes => [0usize, 0, 1, 4][c.below(4)],
     };
     let m = [3usize, 0, 4, 1][c.below(4)];
@@ -118,6 +124,15 @@ pub fn describe(ctl: &[u8]) -> String {
     match c.scenario {
         Scenario::GetDuringPush => format!(
             "plain-data stress: a script makes l = [{MAGIC:#x} + 0, .. + {}] (List[u64], len == capacity); one thread pushes {} element(s) {}; readers {:?} (true = script) read every element {} time(s) with get; {} rounds",
+            c.n - 1,
+            c.pushes,
+            if c.push_from_script { "through a script" } else { "from Rust" },
+            c.readers_script,
+            c.reads,
+            c.rounds
+        ),
+        Scenario::SelfConcatDuringPush => format!(
+            "plain-data stress: a script makes l = [{MAGIC:#x} + 0, .. + {}] (List[u64]); one thread pushes {} element(s) {}; readers {:?} (true = script `l + l`, false = Rust l.concat(&l)) concatenate the list with itself {} time(s): both halves must be the same state of the list; {} rounds",
             c.n - 1,
             c.pushes,
             if c.push_from_script { "through a script" } else { "from Rust" },
@@ -237,6 +252,63 @@ pub fn run(fns: &Arc<PlainFns>, ctl: &[u8], render: bool) -> Outcome {
                     }
                 }
             }
+            Scenario::SelfConcatDuringPush => {
+                let (l, want0) = make(fns, cfg.n, false);
+                let mut want = want0.clone();
+                want.extend((0..cfg.pushes as u64).map(|k| MAGIC + 0x1000 + k));
+                let parties = 1 + cfg.readers_script.len();
+                let g = Arc::new(AtomicUsize::new(0));
+                std::thread::scope(|s| {
+                    let mut hs = Vec::new();
+                    {
+                        let (l, g, fns, cfg) = (l.clone(), g.clone(), fns.clone(), cfg.clone());
+                        hs.push(s.spawn(move || -> Result<(u128, u128), String> {
+                            gate(&g, parties);
+                            let st = t0.elapsed().as_nanos();
+                            for k in 0..cfg.pushes as u64 {
+                                if cfg.push_from_script {
+                                    fns.s_push.call(l.clone(), MAGIC + 0x1000 + k);
+                                } else {
+                                    l.push(MAGIC + 0x1000 + k);
+                                }
+                            }
+                            Ok((st, t0.elapsed().as_nanos()))
+                        }));
+                    }
+                    for via in cfg.readers_script.iter().copied() {
+                        let (l, g, fns, want, reads, n0) = (l.clone(), g.clone(), fns.clone(), want.clone(), cfg.reads, want0.len());
+                        hs.push(s.spawn(move || -> Result<(u128, u128), String> {
+                            gate(&g, parties);
+                            let st = t0.elapsed().as_nanos();
+                            for r in 0..reads {
+                                let v = if via { fns.s_plus.call(l.clone(), l.clone()).to_vec() } else { l.concat(&l).to_vec() };
+                                let h = v.len() / 2;
+                                if v.len() % 2 != 0 || v[..h] != v[h..] || h < n0 || h > want.len() || v[..h] != want[..h] {
+                                    return Err(format!(
+                                        "self-concatenation {r} {} has {} elements {:x?}..: not twice one state of the list ({} elements at the start, {} pushes)",
+                                        if via { "through the script" } else { "from Rust" },
+                                        v.len(),
+                                        &v[..v.len().min(4)],
+                                        n0,
+                                        want.len() - n0
+                                    ));
+                                }
+                            }
+                            Ok((st, t0.elapsed().as_nanos()))
+                        }));
+                    }
+                    for h in hs {
+                        match h.join() {
+                            Ok(Ok(sp)) => spans.push(sp),
+                            Ok(Err(e)) => errs.push(e),
+                            Err(_) => errs.push("a thread panicked".into()),
+                        }
+                    }
+                });
+                if errs.is_empty() && l.to_vec() != want {
+                    errs.push(format!("after the round the list holds {} elements, expected {}", l.len(), want.len()));
+                }
+            }
             Scenario::ConcatDuringOrderedPushes => {
                 let (a, a0) = make(fns, cfg.n, false);
                 let (b, b0) = make(fns, cfg.m, false);
@@ -341,6 +413,7 @@ pub fn run(fns: &Arc<PlainFns>, ctl: &[u8], render: bool) -> Outcome {
         if let Some(e) = errs.first() {
             let sig = match cfg.scenario {
                 Scenario::GetDuringPush => "plain:stale-or-wrong-read",
+                Scenario::SelfConcatDuringPush => "plain:self-concat-not-one-state",
                 Scenario::ConcatDuringOrderedPushes => "plain:not-linearizable",
             };
             fail = Some((sig.into(), format!("round {round}: {e}\n{text}")));
